@@ -12,7 +12,10 @@ ID = 'C20'
 RULE = ('cases = every public entry point of the mixture, beamforming, masking, alignment, metric and initialiser modules (registry built by '
         'introspection and matched against a table of argument generators) called (a) with read-only argument arrays and (b) with writable '
         'copies: bytes of every argument array before/after, second identical call (re-seeded where num_classes draws the start), NumPy RNG / '
-        'errstate / printoptions / warnings filters unchanged; trainer objects reused after up to 5 other fits versus fresh ones, dimension '
+        'errstate / printoptions / warnings filters unchanged; returned arrays scribbled over before the repeat; the same call again after a call '
+        'of the same entry point with other arguments; the same argument objects with contents changed in place versus fresh copies; results '
+        'handed out earlier must survive later calls; two cases per entry point repeated in a fresh interpreter (first call / after three calls '
+        'with other arguments) and compared byte for byte; trainer objects reused after up to 5 other fits versus fresh ones, dimension '
         'change on a reused trainer; cACGMM fits of n <= 20 iterations split into consecutive continued fits; non-trivial = the call has at '
         'least one array argument with > 1 element; distinct by (entry point, argument set)')
 DECIDING = ['C20.purity', 'C20.repeat', 'C20.globals', 'C20.history', 'C20.split', 'C20.registry']
